@@ -268,6 +268,34 @@ func (x *exec) doRender(ev Ev) {
 		if !panicked && err == nil && mem != nil {
 			x.checkMemRows("whole-view", parseMemRows(out), expectedMemRows(mem), true)
 		}
+		// ... and once more with the cursor moved down by the view's own
+		// command: what it declares must also hold away from the top
+		if x.stop {
+			return
+		}
+		k := ev.N % 9
+		if ev.N >= 1<<40 {
+			k = 3
+		}
+		if k > 0 {
+			cmds := md.Commands()
+			for i := range cmds {
+				for _, key := range cmds[i].Keys {
+					if key == "down" && len(cmds[i].Args) == 1 {
+						var aerr error
+						if _, _, p := core.Guard(func() {
+							var val interface{}
+							if val, aerr = cmds[i].Args[0](strconv.Itoa(k)); aerr == nil {
+								aerr = cmds[i].Action(nil, val)
+							}
+						}); !p && aerr == nil {
+							x.ctx.Probe("direct_render_memory_cursor_moved")
+							x.directRender("memory", md.View(), ev.N)
+						}
+					}
+				}
+			}
+		}
 	}
 }
 
